@@ -20,7 +20,7 @@ EXPLANATION = ('BolfiPosterior (logpdf, gradient_logpdf, _unnormalized_loglikeli
                '_cache_RBF_kernel) and update run on a stand-in for the fitted GPy model with symbolic evidence, kernel variance, '
                'lengthscale, bias, noise and Woodbury quantities, and are compared with the textbook GP posterior.')
 ASSUMPTIONS = [
-    'scipy.stats.norm.logcdf/pdf/cdf(x, loc, scale) are LOGPHI/NPDF/PHI of (x-loc)/scale (uninterpreted; 0<PHI<1, NPDF>0)',
+    'scipy.stats.norm.pdf/cdf(x, loc, scale) are NPDF/PHI of (x-loc)/scale (uninterpreted; 0<PHI<1, NPDF>0), logpdf/logcdf their logarithms',
     'GPy contract: posterior.woodbury_vector = (K + noise I)^-1 Y, woodbury_inv = (K + noise I)^-1, woodbury_chol lower triangular '
     'with chol chol^T = K + noise I; kern = RBF(variance, lengthscale) + Bias; the "textbook" formulas are stated for these quantities',
     'numpy.linalg.solve with a lower-triangular matrix is forward substitution',
@@ -143,7 +143,7 @@ def h_posterior(ctx, dim, xform, tail=False):
             sd = ctx.uf_sqrt(v)
             z = (h - mu) / sd
             ctx.claim('row%d_logpdf_is_logPhi_of_standardised_threshold_plus_log_prior' % r,
-                      lpv[r] == ctx.apply_uf('LOGPHI', [z]) + lprior)
+                      lpv[r] == ctx.uf_log(ctx.apply_uf('PHI', [z])) + lprior)
             phi, Phi = ctx.apply_uf('NPDF', [z]), ctx.apply_uf('PHI', [z])
             for i in range(dim):
                 dmu, dv = ctx.apply_uf('DMU%d_%d' % (dim, i), p), ctx.apply_uf('DV%d_%d' % (dim, i), p)
@@ -161,7 +161,8 @@ def h_posterior(ctx, dim, xform, tail=False):
                 dmu, dv = ctx.apply_uf('DMU%d_%d' % (dim, i), p), ctx.apply_uf('DV%d_%d' % (dim, i), p)
                 dz = -dmu / sd - (h - mu) * dv / (2 * sd ** 3)
                 ctx.claim('row%d_gradient_%d_is_derivative_of_the_log_density' % (r, i),
-                          close(gv[r][i], ss.norm.pdf(z) / ss.norm.cdf(z) * dz + ctx.apply_uf('DLOGPRIOR%d_%d' % (dim, i), p), 1e-5))
+                          close(gv[r][i], math.exp(ss.norm.logpdf(z) - ss.norm.logcdf(z)) * dz +
+                                ctx.apply_uf('DLOGPRIOR%d_%d' % (dim, i), p), 1e-5))
 
 
 # ---------------------------------------------------------------- fast GP path
@@ -383,9 +384,13 @@ HARNESSES = [
     H('update_n1_d1_m2', h_update, dict(n=1, d=1, m=2), bounds='1 old + 2 new evidence, dim 1'),
 ]
 
+for _h in HARNESSES:
+    if _h.name.endswith('_far_tail'):
+        _h.float_region = True       # the concrete twin's verdict on the region's models is part of the check
+
 MANIFEST = {
     'level_text': 'Bounded symbolic execution of the real posterior and surrogate code: inside the bounds (boundary included) the '
-                  'log density is LOGPHI((h - MU)/sqrt(V)) + log prior, outside -inf, shapes follow the input, and the gradient equals '
+                  'log density is log PHI((h - MU)/sqrt(V)) + log prior, outside -inf, shapes follow the input, and the gradient equals '
                   'the chain-rule derivative (identity of rational functions in MU, V, DMU, DV, PHI, NPDF and sqrt(V)); the '
                   'accelerated single-point prediction equals the textbook GP posterior mean, variance and their gradients for an '
                   'RBF+bias kernel (exponents proved equal as polynomials, then identities in the code\'s own exp values); update() '
